@@ -343,3 +343,16 @@ mod tests {
         Ok(())
     }
 }
+
+#[cfg(noodles_verif)]
+#[doc(hidden)]
+pub mod verif_hooks {
+    //! Re-exports for verification harnesses (`--cfg noodles_verif`).
+    pub use super::{
+        bin::__verif_region_to_bin,
+        cigar::__verif_encode_op,
+        name::__verif_write_name_length,
+        position::__verif_write_position,
+        sequence::{__verif_encode_base, __verif_pack_bases, __verif_write_sequence_length},
+    };
+}
